@@ -21,6 +21,7 @@ import AcVerif.StreamCost
 import AcVerif.MemUsage
 import AcVerif.NfaMemCompile
 import AcVerif.TopLevel
+import AcVerif.TopLevel2
 import AcVerif.Compiler
 import AcVerif.DfaModel
 import AcVerif.DfaIds
@@ -439,6 +440,40 @@ def answerTop (r : Req) (c : Cfg) : String :=
             | .ok none => "-"
             | .ok (some x) => fmtMat x
             | .error e => e.name)
+        | "topstream" | "topstreamrep" | "topstreamrepwith" =>
+          -- the stream methods of the capstone model (TopLevel / TopLevel2), in the format of `stream*`
+          match r.nums? "sched" with
+          | none => "bad-request:input"
+          | some sched =>
+            let rdr : Reader UInt8 := { data := i.hay, sched := sched, failAt := r.nat? "rfail" }
+            let spare := match r.nat? "spare", r.nat? "cap" with
+              | some sp, _ => some sp
+              | none, some cap => some (cap - max 1 s.aut.maxLen)
+              | none, none => none
+            let K := constsOf r
+            if r.op == "topstream" then
+              match topStreamFind s rdr spare K.bufferMinFactor K.bufferDefaultCap with
+              | .error e => s!"{e.name} emptyreads=0"
+              | .ok (ms, err, er) =>
+                s!"{fmtList (ms.map fmtMat ++ (if err then ["io-err"] else []))} emptyreads={er}"
+            else
+              match r.list? "repl" with
+              | none => "bad-request:repl"
+              | some repl =>
+                let w : Writer UInt8 := { limit := r.nat? "wlimit" }
+                if r.op == "topstreamrep" then
+                  match topStreamReplaceAll s rdr spare w repl K.bufferMinFactor K.bufferDefaultCap with
+                  | .error e => s!"{e.name} emptyreads=0"
+                  | .ok .panic => "panic emptyreads=0"
+                  | .ok (.ret (w', ok, er)) =>
+                    s!"{hex w'.out} {if ok then "ok" else "io-err"} emptyreads={er}"
+                else
+                  let f := fun (x : Mat) => repl.getD (x.pid % (max repl.length 1)) []
+                  match topStreamReplaceAllWith s rdr spare w f K.bufferMinFactor K.bufferDefaultCap with
+                  | .error e => s!"{e.name} emptyreads=0"
+                  | .ok (w', log, ok, er) =>
+                    let l := fmtList (log.map fun (x, b) => s!"{fmtMat x}/{hex b}")
+                    s!"{hex w'.out} {if ok then "ok" else "io-err"} {l} emptyreads={er}"
         | _ => "bad-request:top"
   | _, _, _ => "bad-request:top"
 
@@ -975,7 +1010,7 @@ def respond (lineNo : Nat) (line : String) : List String :=
     | "meta" => (cfgsOf r).map fun c => s!"{lineNo} {c.name} {answerMeta r c}"
     | "memusage" => (cfgsOf r).map fun c => s!"{lineNo} {c.name} {answerMemUsage r c}"
     | "rawnnfa" => [s!"{lineNo} - {answerRawNnfa r}"]
-    | "topfind" | "topiter" | "topismatch" | "topovl" => (cfgsOf r).map fun c => s!"{lineNo} {c.name} {answerTop r c}"
+    | "topfind" | "topiter" | "topismatch" | "topovl" | "topstream" | "topstreamrep" | "topstreamrepwith" => (cfgsOf r).map fun c => s!"{lineNo} {c.name} {answerTop r c}"
     | "threads" => (cfgsOf r).map fun c =>
         let hays := (r.getD "hays" "_").splitOn "|"
         let finds := hays.map fun h =>
